@@ -92,4 +92,80 @@ def leftDeep : Nat → Sk
   | 0 => .node []
   | n + 1 => .node [leftDeep n, .node []]
 
+/-! ### loop-built chains inside nested constructs (`Parser::chain_link`, `Parser::chain_scope`)
+
+`leftDeep` bounds one chain; chains also stack through the heads of chains in nested constructs
+(`((x.a.a…).a.a…).a.a…`): the tree is as deep as all of them together although the parser's recursion
+is only as deep as the nesting.  The parser therefore counts links per accounting scope
+(`chain_links`) plus the largest total of the scopes nested in it that are complete (`nested_links`)
+and refuses a link when the sum exceeds `MAX_CHAIN`. -/
+
+/-- trees as recursion and loops build them together: `wrap` is a recursive construct (parentheses,
+array, call arguments, function body, …) whose children are parsed as accounting scopes of their
+own; `chain` is a loop-built left-deep chain: a head, then one link per operand (`a.b`, `a + b`,
+`f(x)`), the operands parsed in the scope of the chain. -/
+inductive Tr where
+  | leaf
+  | wrap (cs : List Tr)
+  | chain (head : Tr) (ops : List Tr)
+  deriving Repr, Inhabited
+
+mutual
+/-- depth of the tree (what compilation and release recurse over): every link of a chain puts one
+    more node above everything parsed before it -/
+def tdepth : Tr → Nat
+  | .leaf => 1
+  | .wrap cs => 1 + tdepths cs
+  | .chain h ops => spine (tdepth h) ops
+def tdepths : List Tr → Nat
+  | [] => 0
+  | c :: cs => max (tdepth c) (tdepths cs)
+def spine (d : Nat) : List Tr → Nat
+  | [] => d
+  | o :: os => spine (1 + max d (tdepth o)) os
+end
+
+mutual
+/-- recursion depth of the parser on the same tree (what `check_depth` bounds): loops add none -/
+def rdepth : Tr → Nat
+  | .leaf => 1
+  | .wrap cs => 1 + rdepths cs
+  | .chain h ops => max (rdepth h) (1 + rdepths ops)
+def rdepths : List Tr → Nat
+  | [] => 0
+  | c :: cs => max (rdepth c) (rdepths cs)
+end
+
+mutual
+/-- the parser's accounting: state `(chain_links, nested_links)`; `none` = "Expression chain is too long" -/
+def scan (M : Nat) : Tr → Nat × Nat → Option (Nat × Nat)
+  | .leaf, st => some st
+  | .wrap cs, st => scanScopes M cs st
+  | .chain h ops, st =>
+    match scan M h st with
+    | none => none
+    | some st1 => scanLinks M ops st1
+/-- `chain_scope`: a child is counted from zero and contributes its total by maximum -/
+def scanScopes (M : Nat) : List Tr → Nat × Nat → Option (Nat × Nat)
+  | [], st => some st
+  | c :: cs, st =>
+    match scan M c (0, 0) with
+    | none => none
+    | some tot => scanScopes M cs (st.1, max st.2 (tot.1 + tot.2))
+/-- `chain_link` before every operand of the loop -/
+def scanLinks (M : Nat) : List Tr → Nat × Nat → Option (Nat × Nat)
+  | [], st => some st
+  | o :: os, st =>
+    if st.1 + 1 + st.2 > M then none
+    else match scan M o (st.1 + 1, st.2) with
+      | none => none
+      | some st' => scanLinks M os st'
+end
+
+/-- `d` groups nested in each other, each the head of a chain of `k` links: the family that the
+    per-loop limit let through -/
+def nestedChains (k : Nat) : Nat → Tr
+  | 0 => .leaf
+  | d + 1 => .chain (.wrap [nestedChains k d]) (List.replicate k .leaf)
+
 end TsrunVerif.Parse
